@@ -118,6 +118,24 @@ func c20Run(input string) string {
 		descAttr[f[0]] = f[3]
 		desc := map[string]interface{}{"id": f[0], "name": f[0], "purpose": "p",
 			"schema": []interface{}{map[string]interface{}{"uri": "https://www.w3.org/2018/credentials#VerifiableCredential"}}}
+		if len(f) == 6 {
+			// schema lists with a second entry: s1 = [any credential, degree REQUIRED], s2 = [degree REQUIRED, any credential],
+			// s3 = [degree, any credential] (nothing required)
+			vcS := map[string]interface{}{"uri": "https://www.w3.org/2018/credentials#VerifiableCredential"}
+			deg := map[string]interface{}{"uri": "https://example.org/examples#UniversityDegreeCredential"}
+			switch f[5] {
+			case "s1":
+				deg["required"] = true
+				desc["schema"] = []interface{}{vcS, deg}
+			case "s2":
+				deg["required"] = true
+				desc["schema"] = []interface{}{deg, vcS}
+			case "s3":
+				desc["schema"] = []interface{}{deg, vcS}
+			default:
+				return "bad-input"
+			}
+		}
 		if f[1] != "-" {
 			var gs []string
 			for _, g := range f[1] {
@@ -195,9 +213,14 @@ func c20Run(input string) string {
 					}
 				}
 			}
+			ctxs, types := []string{verifiable.ContextURI}, []string{verifiable.VCType}
+			if strings.HasPrefix(f[0], "g") { // a degree credential
+				ctxs = append(ctxs, "https://www.w3.org/2018/credentials/examples/v1")
+				types = append(types, "UniversityDegreeCredential")
+			}
 			creds = append(creds, &verifiable.Credential{
-				Context:      []string{verifiable.ContextURI},
-				Types:        []string{verifiable.VCType},
+				Context:      ctxs,
+				Types:        types,
 				ID:           "urn:cred:" + f[0],
 				Subject:      []verifiable.Subject{{ID: "did:example:holder"}},
 				Issuer:       verifiable.Issuer{ID: "did:example:issuer"},
@@ -316,6 +339,39 @@ func c20Run(input string) string {
 		ids = append(ids, id)
 	}
 	sort.Strings(ids)
+	// the same answer as a LIST of presentations (one per credential) with the submission next to them: the verifier
+	// matches it with the merged submission and finds the same descriptors
+	if vps, sub, err := pd.CreateVPArray(creds, c20Loader, verifiable.WithJSONLDDocumentLoader(c20Loader)); err == nil {
+		var parsed []*verifiable.Presentation
+		for _, v := range vps {
+			b, err := v.MarshalJSON()
+			if err != nil {
+				return holder + "|vparray marshal"
+			}
+			pv, err := verifiable.ParsePresentation(b, verifiable.WithPresDisabledProofCheck(), verifiable.WithPresJSONLDDocumentLoader(c20Loader))
+			if err != nil {
+				return holder + "|vparray parse"
+			}
+			parsed = append(parsed, pv)
+		}
+		m2, err := pd.Match(parsed, c20Loader, append(mopts, presexch.WithMergedSubmission(sub))...)
+		if err != nil {
+			if os.Getenv("VERIF_TRACE") != "" {
+				fmt.Fprintln(os.Stderr, "vparray match error:", err)
+			}
+			return holder + fmt.Sprintf("|vparray-rejected (%d presentations)", len(vps))
+		}
+		var ids2 []string
+		for id := range m2 {
+			ids2 = append(ids2, id)
+		}
+		sort.Strings(ids2)
+		if strings.Join(ids2, ",") != strings.Join(ids, ",") {
+			return holder + "|vparray-differs " + strings.Join(ids2, ",")
+		}
+	} else {
+		return holder + "|vparray-error"
+	}
 	return holder + "|ok " + strings.Join(ids, ",")
 }
 
@@ -357,6 +413,7 @@ func c20Gen(r *Rng, tier string) []string {
 		nd := 2 + r.N(4)
 		var ds []string
 		optDef := r.N(6) == 0 // a version 2 definition with optional fields
+		schemaDef := !optDef && r.N(5) == 0 // schema lists with a required entry behind / in front of a non-required one
 		for d := 0; d < nd; d++ {
 			groups := ""
 			for _, g := range []string{"A", "B", "C"} {
@@ -378,7 +435,11 @@ func c20Gen(r *Rng, tier string) []string {
 			if kind == "m" || kind == "q" || kind == "M" {
 				val = strconv.Itoa(5 + r.N(3)*5)
 			}
-			ds = append(ds, fmt.Sprintf("d%d/%s/%s/%s/%s", d, groups, kind, attrs[r.N(len(attrs))], val))
+			dsc := fmt.Sprintf("d%d/%s/%s/%s/%s", d, groups, kind, attrs[r.N(len(attrs))], val)
+			if schemaDef && r.N(2) == 0 {
+				dsc += "/" + r.Pick([]string{"s1", "s1", "s2", "s3"})
+			}
+			ds = append(ds, dsc)
 		}
 		req := "-"
 		if r.N(5) > 0 {
@@ -390,6 +451,9 @@ func c20Gen(r *Rng, tier string) []string {
 			req = strings.Join(rs, "+")
 		}
 		nc := r.N(6)
+		if r.N(40) == 0 {
+			nc = 10 + r.N(4) // more credentials than one decimal digit counts
+		}
 		var cs []string
 		for c := 0; c < nc; c++ {
 			var kv []string
@@ -401,7 +465,11 @@ func c20Gen(r *Rng, tier string) []string {
 					kv = append(kv, a+"="+strconv.Itoa(r.N(5)*5))
 				}
 			}
-			cs = append(cs, fmt.Sprintf("c%d/%s", c, strings.Join(kv, ",")))
+			pre := "c"
+			if schemaDef && r.N(2) == 0 {
+				pre = "g"
+			}
+			cs = append(cs, fmt.Sprintf("%s%d/%s", pre, c, strings.Join(kv, ",")))
 		}
 		out = append(out, "D:"+strings.Join(ds, ";")+"|R:"+req+"|C:"+strings.Join(cs, ";"))
 	}
